@@ -144,7 +144,11 @@ public:
   /// every constraint type is natively accepted; the *set* is then chosen at
   /// run time through the library's own acc:* options
   template <class Con>
-  static ConstraintAcceptanceLevel AcceptanceLevel(const Con *) { return Recommended; }
+  static ConstraintAcceptanceLevel AcceptanceLevel(const Con *) {
+    // UnaryEncodingConstraint is the converter's internal bookkeeping item; no solver API takes it
+    if constexpr (std::is_same<Con, UnaryEncodingConstraint>::value) return NotAccepted;
+    else return Recommended;
+  }
 
   template <class Con> static constexpr int GroupNumber(const Con *) {
     if constexpr (verif_is_alg<Con>::value)
